@@ -162,3 +162,57 @@ Example ex_unblock_step :
   | RErr _ => (None, None, [])
   end = (None, Some Panicked, []).
 Proof. vm_compute. reflexivity. Qed.
+
+(* the same as a statement about the invariant: without the Vacant-branch part of
+   [transfer_pre], a client that otherwise follows the documented discipline (every caller is
+   running and owns what it releases; debug_asserts of transfer_lock hold) breaks I3 *)
+Lemma ex_vacant_cycle_breaks_I3 :
+  exists s, run 20 ex_vacant_cycle init = ROk s /\ ~ tinv (dg s).
+Proof.
+  destruct (run 20 ex_vacant_cycle init) as [s|e] eqn:E; [|vm_compute in E; discriminate].
+  exists s. split; auto. intros [G _ _].
+  assert (T20 : tproj_f (transferred (dg s)) 20 = Some 30)
+    by (vm_compute in E; injection E as <-; reflexivity).
+  assert (T30 : tproj_f (transferred (dg s)) 30 = Some 10)
+    by (vm_compute in E; injection E as <-; reflexivity).
+  assert (T10 : tproj_f (transferred (dg s)) 10 = Some 20)
+    by (vm_compute in E; injection E as <-; reflexivity).
+  eapply (grounded_no_cycle _ 20 30 G T20).
+  econstructor; [exact T30|]. econstructor; [exact T10|]. constructor.
+Qed.
+
+(* every step of that trace passes the documented-discipline check except the last one, whose
+   only failing conjunct is the Vacant-branch condition *)
+Example ex_vacant_cycle_prefix_valid : validb 20 init (firstn 8 ex_vacant_cycle) = true.
+Proof. vm_compute. reflexivity. Qed.
+
+(* the debug_assert of update_transferred_edges (dependency_graph.rs:422-425) is a genuine
+   obligation in a client model that is free to choose whom a thread blocks on: thread 2 waits
+   behind two dependents (3 and 4) of the transferred query 10; only the first one is woken,
+   re-pointing the second one at thread 2 would close  2 -> 4 -> 2. *)
+Definition ex_edge_assert : list op :=
+  [ OClaim 1 10 true; OClaim 2 20 true;
+    OBlockOn 3 10 1;                 (* 3 waits for 10@1 *)
+    OBlockOn 4 10 3;                 (* 4 waits for 10, registered as blocked on 3 *)
+    OBlockOn 2 30 4;                 (* 2 -> 4 -> 3 -> 1 *)
+    OMarkTarget 1 20;
+    OTransfer 1 10 20 (OThread 2) ].
+
+Example ex_edge_assert_fires :
+  match run 20 ex_edge_assert init with ROk _ => None | RErr e => Some e end = Some EEdgeCycle.
+Proof. vm_compute. reflexivity. Qed.
+
+(* state before the recursive release of the transfer target 10 (prefix of length 12) *)
+Definition ex_before_unblock_transferred : state :=
+  match run 20 (firstn 12 ex_cycle) init with ROk s => s | RErr _ => init end.
+
+Example ex_before_unblock_transferred_reachable : reachable 20 ex_before_unblock_transferred.
+Proof. eapply reachable_prefix with (l := firstn 12 ex_cycle); vm_compute; reflexivity. Qed.
+
+Example ex_unblock_transferred_step :
+  match step 20 ex_before_unblock_transferred (OUnblockTransferred 1 10 Panicked) with
+  | ROk (s', _) => (transferred (dg ex_before_unblock_transferred) 20,
+                    transferred (dg s') 20, tdeps (dg s') 10)
+  | RErr _ => (None, None, None)
+  end = (Some (1, 10), None, None).
+Proof. vm_compute. reflexivity. Qed.
